@@ -47,7 +47,13 @@ def proof_items():
     from contracts import misc
     from vf.driver import ProofItem
     # the resume decision: which elements are recomputed (missing) and which are kept (existing)
-    return [ProofItem(misc.existing_and_missing, gen=misc.em_gen, call=misc.em_call)]
+    from contracts import store
+    sreg = lambda: {**{c.short: c for c in store.ALL}, **{c.name: c for c in store.ALL}}  # noqa: E731
+    return [ProofItem(misc.existing_and_missing, gen=misc.em_gen, call=misc.em_call),
+            # how the result of a function without an element-wise MapSpec reaches the store: the entry of every output
+            # name holds the value picked for it (what a resumed run finds and does not recompute)
+            ProofItem(store.single_dump_single_output, gen=store.sdso_gen, registry=sreg),
+            ProofItem(store.dump_single_output, gen=store.dso_gen, registry=sreg)]
 
 
 def _run_child(job):
